@@ -1555,7 +1555,7 @@ static void CodeBINCLUDE(Word Index) {
     FILE*        F;
     LongInt      Len = -1;
     LongWord     Ofs = 0, Curr, Rest, FSize;
-    Word         RLen;
+    Word         RLen, Gran;
     Boolean      OK, SaveTurnWords;
     tSymbolFlags Flags;
     LargeWord    OldPC;
@@ -1607,7 +1607,9 @@ static void CodeBINCLUDE(Word Index) {
                     return;
                 }
             }
-            if (!ChkPC(EProgCounter() + Len - 1)) {
+            /* Len counts bytes, program counter and CodeLen count address units */
+            Gran = Granularity();
+            if (!ChkPC(EProgCounter() + (Len + Gran - 1) / Gran - 1)) {
                 WrError(ErrNum_AdrOverflow);
             } else {
                 errno = 0;
@@ -1622,7 +1624,8 @@ static void CodeBINCLUDE(Word Index) {
                     errno = 0;
                     RLen  = fread(BAsmCode, 1, Curr, F);
                     ChkIO(ErrNum_FileReadError);
-                    CodeLen = RLen;
+                    CodeLen = (RLen + Gran - 1) / Gran;
+                    memset(BAsmCode + RLen, 0, CodeLen * Gran - RLen);
                     WriteBytes();
                     PCs[ActPC] += CodeLen;
                     Rest -= RLen;
